@@ -503,3 +503,20 @@ Example C03_ex_class_conditions_needed :
      [Create (nm "/d1/f1"); Rename (nm "/") (nm "/x1")]]
   = [(true, false, false); (true, false, false); (true, false, false); (true, false, false); (true, false, false)].
 Proof. vm_compute. reflexivity. Qed.
+
+(* the corpus cases corpus/C03/quiescent-class.case (replayed 300x under -race by every run of the
+   check: the two examples above, a Rename whose target directory is removed and re-created by
+   other goroutines, creations below a directory that is being removed / renamed away) are cases of
+   the class: C03_quiescent_consistent_case applies to each of them *)
+Example C03_ex_corpus_cases_in_class :
+  cc_case_wtq [] (map (fun ops => ([], ops)) (map snd ex_q_progs)) = true /\
+  cc_case_wtq [Create (nm "/d1/f1"); Create (nm "/d1/e1/f2"); MkdirAll (nm "/d2/e1") 493%Z]
+    [([], [RemoveAll (nm "/d2"); MkdirAll (nm "/d2/e1") 493%Z]);
+     ([], [Rename (nm "/d1/f1") (nm "/d2/e1/f1"); Rename (nm "/d1/e1") (nm "/d2/e1/x1")]);
+     ([], [RemoveAll (nm "/d2/e1"); Create (nm "/d2/e1/f2")])] = true /\
+  cc_case_wtq [MkdirAll (nm "/d1/e1") 493%Z; MkdirAll (nm "/d1/e2") 493%Z]
+    [([], [RemoveAll (nm "/d1")]);
+     ([], [Create (nm "/d1/e1/f1"); OpenFile (nm "/d1/e2/f2") 66%Z 420%Z]);
+     ([], [Mkdir (nm "/d1/e1") 448%Z; Rename (nm "/d1") (nm "/x1")]);
+     ([], [MkdirAll (nm "/d1/e2") 493%Z; Rename (nm "/d1/e2") (nm "/x2")])] = true.
+Proof. vm_compute. auto. Qed.
